@@ -203,17 +203,23 @@ theorem cfg_protocol :
     hasInitFlag = false ∧ wrapsGivenGenerator = true ∧ checksPassTypeVars = true ∧ checksPassContext = true := by
   decide
 
-/-- `_set_and_check_return_types`: exactly `typing.Generator / Iterable / Iterator` are accepted; one type argument fills
+/-- the base generics a generator function's return annotation may have: the three `typing` aliases and (since the repair
+    of the `collections.abc` half of the finding `generatorAnnotationSpelling`) their `collections.abc` classes -/
+def supportedBases : List String :=
+  ["typing.Generator", "typing.Iterable", "typing.Iterator",
+   "collections.abc.Generator", "collections.abc.Iterable", "collections.abc.Iterator"]
+
+/-- `_set_and_check_return_types`: exactly `supportedBases` are accepted; one type argument fills
     the yield slot, three fill (yield, send, return) in this order, everything else raises; unfilled slots are `None` -/
 theorem cfg_creation :
-    (∀ b, acceptedBases.contains b = ["typing.Generator", "typing.Iterable", "typing.Iterator"].contains b) ∧
+    (∀ b, acceptedBases.contains b = supportedBases.contains b) ∧
     arityMap.lookup 1 = some [(.yieldT, 0)] ∧
     arityMap.lookup 3 = some [(.yieldT, 0), (.sendT, 1), (.returnT, 2)] ∧
     (∀ n, n ≠ 1 → n ≠ 3 → arityMap.lookup n = none) ∧
     otherArityRaises = true ∧ baseCheckedFirst = true ∧ setTypesAfterDefaults = true ∧
     (∀ s, slotDefaultIsNone s = true) := by
   refine ⟨?_, by decide, by decide, ?_, by decide, by decide, by decide, ?_⟩
-  · intro b; simp [acceptedBases]; try grind
+  · intro b; simp [acceptedBases, supportedBases]; try grind
   · intro n h1 h3
     simp only [arityMap, List.lookup]
     split <;> simp_all
